@@ -3,10 +3,12 @@ import NessaiVerif.Proofs.ReparamPrior
 import NessaiVerif.Proofs.ReparamCombine
 import NessaiVerif.Proofs.ReparamReal
 /-
-C07 — reparameterisations are exact bijections with consistent Jacobians and priors.
+C07 — reparameterisations are exact bijections with consistent Jacobians and priors.   PARTIAL (see the end of the file).
 Property theorems only.  Stage 1 (any linearly ordered field `K`, so ℚ — what the driver executes — and ℝ): the affine
-family.  Stage 2 (ℝ): the transcendental maps.  Jacobians are multiplicative factors `J` in stage 1 (the code stores
-`log J`: "J_fwd · J_inv = 1" ⇔ "the two log-Jacobians are negatives"), log-Jacobians in stage 2.
+family.  Stage 2 (ℝ): the transcendental maps.  Jacobians are multiplicative factors `J` in stage 1; the code stores
+`log J`.  "J_fwd · J_inv = 1" says "the two log-Jacobians are negatives of each other" only when both factors are
+positive — the theorems therefore also conclude `0 < J` (under `b0 < b1`), and `rtb_jac_fails_without_ordered_bounds`
+records what happens otherwise (the code takes the log of a negative number: NaN).  Log-Jacobians are used in stage 2.
 -/
 namespace NessaiVerif.C07
 open NessaiVerif.Reparam
@@ -17,10 +19,12 @@ variable {K : Type} [Field K] [LinearOrder K] [IsStrictOrderedRing K]
 /-! ## ScaleAndShift / Rescale -/
 
 /-- ScaleAndShift with a non-zero scale (given, or estimated by `update`): mapping forward and back returns the
-original value and the two Jacobian factors multiply to one. -/
+original value and the two Jacobian factors (`1/|s|`, `|s|`: positive) multiply to one. -/
 theorem ss_roundtrip_jac_inv (r : SS K) (s x : K) (hs : r.scale = some s) (h0 : s ≠ 0) :
     ∃ y j j', ssFwd r x = .ok (y, j) ∧ ssInv r y = .ok (x, j') ∧ j * j' = 1 :=
   ss_lawful r s x hs h0
+
+example := ss_roundtrip_jac_inv (K := ℚ) ⟨some (-4), some 1, false, false⟩ (-4) 3 rfl (by norm_num)
 
 example : (ssFwd (⟨some 4, some 1, false, false⟩ : SS Rat) 3).toOption = some (1 / 2, 1 / 4) ∧
     (ssInv (⟨some 4, some 1, false, false⟩ : SS Rat) (1 / 2)).toOption = some (3, 4) := by decide +kernel
@@ -40,9 +44,9 @@ theorem ss_jac_is_derivative (r : SS K) (s : K) (hs : r.scale = some s) (h0 : s 
   · rw [ssFwd_eq r s x hs, ← hc x]
   · rw [ssFwd_eq r s y hs, ← hc y]
 
-example : ∃ s : Rat, s ≠ 0 := ⟨-2, by decide⟩
+example := ss_jac_is_derivative (K := ℚ) ⟨some (-2), none, false, false⟩ (-2) rfl (by norm_num)
 
-/-- `update` of the z-score variant sets scale := std(data) and shift := mean(data): with four points −1, −1, 1, 1 the
+/-- `update` of the z-score variant sets scale := std(data) and shift := mean(data): with the data 4, 4, 6, 6 the
 model accepts the witness 1 for the square root and the updated map sends the mean to 0. -/
 theorem ss_update_example :
     (ssUpdate (⟨some 1, some 0, true, true⟩ : SS Rat) [4, 4, 6, 6] 1).map (fun r => (r.scale, r.shift)) = some (some 1, some 5) := by
@@ -59,6 +63,8 @@ theorem utils_roundtrip_jac_inv (a b x : K) (h : a ≠ b) :
      (rescaleMinusOneToOne x a b).2 * (inverseRescaleMinusOneToOne (rescaleMinusOneToOne x a b).1 a b).2 = 1) :=
   ⟨z2o_lawful a b x h, m2o_lawful a b x h⟩
 
+example := utils_roundtrip_jac_inv (2 : ℚ) 6 3 (by norm_num)
+
 example : (rescaleMinusOneToOne (3 : Rat) 2 6, inverseRescaleMinusOneToOne (-1 / 2 : Rat) 2 6) = ((-1 / 2, 1 / 2), (3, 2)) := by
   decide +kernel
 
@@ -66,45 +72,74 @@ example : (rescaleMinusOneToOne (3 : Rat) 2 6, inverseRescaleMinusOneToOne (-1 /
 
 /-- **Round trip and Jacobian consistency of RescaleToBounds** for one parameter, any state (before or after `update`), any
 rescale bounds / offset / inversion type / edge decision / sign bit, any pre- and post-rescaling hooks, under the exact
-regularity guard: bounds distinct, target interval non-degenerate when no inversion is configured, the reflected value
-on the kept side of the edge, hooks lawful at the points where they are applied. -/
-theorem rtb_roundtrip_jac_inv (r : Rtb K) (neg : Bool) (x : K) (hb : r.b0 ≠ r.b1) (hf : r.FactorOK)
-    (hok : r.ReflectOK (r.preF x).1) (hh : r.HooksOK neg x) :
-    (rtbInv r (rtbFwd r neg x).1).1 = x ∧ (rtbFwd r neg x).2 * (rtbInv r (rtbFwd r neg x).1).2 = 1 :=
-  rtb_lawful r neg x hb hf hok hh
+regularity guard: bounds in order (`b0 < b1`), target interval non-degenerate when no inversion is configured, the
+reflected value on the kept side of the edge, hooks lawful with positive factors at the points where they are applied.
+Conclusion: the inverse returns the point, `J_fwd · J_inv = 1`, and both factors are strictly positive — so the two
+log-Jacobians the code reports are finite and negatives of each other. -/
+theorem rtb_roundtrip_jac_inv (r : Rtb K) (neg : Bool) (x : K) (hb : r.b0 < r.b1) (hf : r.FactorOK)
+    (hok : r.ReflectOK (r.preF x).1) (hh : r.HooksOK neg x) (hp : r.HooksPos neg x) :
+    (rtbInv r (rtbFwd r neg x).1).1 = x ∧ (rtbFwd r neg x).2 * (rtbInv r (rtbFwd r neg x).1).2 = 1 ∧
+    0 < (rtbFwd r neg x).2 ∧ 0 < (rtbInv r (rtbFwd r neg x).1).2 :=
+  let h := rtb_lawful_pos r neg x hb hf hok hh hp
+  ⟨h.1.1, h.1.2, h.2.1, h.2.2⟩
 
-/-- non-vacuity: offset, update to data [1/4, 3/4], reflection about the upper edge with the sign bit set, at the data maximum -/
+/-- applied: reflection about the lower edge with the sign bit set, bounds [1/4, 3/4], offset 1/2, at x = 1 -/
+example :=
+  rtb_roundtrip_jac_inv (K := ℚ) ⟨0, 1, 0, 1, some .split, true, none, none, false, 1 / 2, -1 / 4, 1 / 4, .lower⟩ true 1
+    (by norm_num) (fun h => by cases h)
+    (fun _ => by rw [if_neg (by decide)]; simp only [Rtb.unit, Rtb.preF]; norm_num)
+    (hooksOK_none _ _ _ rfl rfl) (hooksPos_none _ _ _ rfl rfl)
+
+/-- non-vacuity on the executable model: offset, update to data [1/4, 3/4], reflection about the upper edge with the sign bit set -/
 example :
     let r := rtbDetect (rtbUpdate (rtbMk (0 : Rat) 1 none (some .split) true true true none none false true) [1 / 4, 3 / 4]) .upper
     rtbFwd r true (3 / 4) = (0, 2) ∧ rtbInv r 0 = (3 / 4, 1 / 2) ∧ rtbFwd r true (1 / 2) = (-1 / 2, 2) ∧
       rtbInv r (-1 / 2) = (1 / 2, 1 / 2) := by decide +kernel
 
+/-- the hypothesis `b0 < b1` (rather than `b0 ≠ b1`) is needed for the *Jacobian* clause: with a decreasing pre-rescaling
+`x ↦ −x` (a lawful hook pair) the bounds come out reversed, the round trip still holds, but the reported factor is negative:
+the code's `log_j` is the log of a negative number (NaN).  (`FlowProposal.verify_rescaling` refuses this configuration.) -/
+theorem rtb_jac_fails_without_ordered_bounds :
+    let r := rtbMk (0 : Rat) 1 none none false false true (some (Hook.affine (-1) 0)) none false false
+    r.b1 < r.b0 ∧ (rtbInv r (rtbFwd r false (1 / 4)).1).1 = 1 / 4 ∧ (rtbFwd r false (1 / 4)).2 < 0 := by decide +kernel
+
 /-- **Every point of the prior box, before any update**: for the state the constructor builds (any rescale bounds with distinct
-ends, offset on/off, any inversion type, any edge decision, any sign bit) the round trip and `J_fwd · J_inv = 1` hold at every
-`x ∈ [p0, p1]` — both bounds included. -/
+ends, offset on/off, any inversion type, any edge decision, any sign bit) the round trip, `J_fwd · J_inv = 1` and positivity of
+both factors hold at every `x ∈ [p0, p1]` — both bounds included. -/
 theorem rtb_lawful_on_prior_box (p0 p1 : K) (rb : Option (K × K)) (inv : Option InvType) (oinv det off upd prior : Bool)
     (r0 : Rtb K) (hp : p0 < p1) (hrb : ∀ b, rb = some b → b.1 ≠ b.2)
     (h : rtbInit p0 p1 rb inv oinv det off upd none none false prior = .ok r0)
     (test : Edge) (neg : Bool) (x : K) (hx0 : p0 ≤ x) (hx1 : x ≤ p1) :
     (rtbInv (rtbDetect r0 test) (rtbFwd (rtbDetect r0 test) neg x).1).1 = x ∧
-    (rtbFwd (rtbDetect r0 test) neg x).2 * (rtbInv (rtbDetect r0 test) (rtbFwd (rtbDetect r0 test) neg x).1).2 = 1 :=
-  rtb_lawful_on_box p0 p1 rb inv oinv det off upd prior r0 hp hrb h test neg x hx0 hx1
+    (rtbFwd (rtbDetect r0 test) neg x).2 * (rtbInv (rtbDetect r0 test) (rtbFwd (rtbDetect r0 test) neg x).1).2 = 1 ∧
+    0 < (rtbFwd (rtbDetect r0 test) neg x).2 ∧
+    0 < (rtbInv (rtbDetect r0 test) (rtbFwd (rtbDetect r0 test) neg x).1).2 :=
+  let h := rtb_lawful_on_box p0 p1 rb inv oinv det off upd prior r0 hp hrb h test neg x hx0 hx1
+  ⟨h.1.1, h.1.2, h.2.1, h.2.2⟩
 
-example : (rtbInit (0 : Rat) 1 (some (0, 3)) none false false true true none none false true).toOption.isSome = true := by
-  decide +kernel
+/-- applied: duplicate inversion with edge detection, offset, edge decision `upper`, sign bit set, at the upper prior bound -/
+example :=
+  rtb_lawful_on_prior_box (0 : ℚ) 4 none (some .duplicate) true true true true true
+    (rtbMk 0 4 none (some .duplicate) true true true none none false true)
+    (by norm_num) (fun b hb => by cases hb) rfl .upper true 4 (by norm_num) (by norm_num)
 
-/-- **After the data-dependent update** (bounds := data min / max): the round trip and `J_fwd · J_inv = 1` hold at *every* point
-when nothing is reflected, and at the points on the data range of the reflecting side when an edge is inverted. -/
+/-- **After the data-dependent update** (bounds := data min / max): round trip, `J_fwd · J_inv = 1` and positive factors hold at
+*every* point when nothing is reflected, and at the points on the data range of the reflecting side when an edge is inverted. -/
 theorem rtb_lawful_after_update (r0 : Rtb K) (d : K) (ds : List K) (hupd : r0.update = true)
     (hpre : r0.pre = none) (hpost : r0.post = none) (hf : r0.FactorOK)
     (hmM : minL d ds < maxL d ds) (test : Edge) (neg : Bool) (x : K)
     (hside : (rtbDetect (rtbUpdate r0 (d :: ds)) test).reflects →
       if (rtbDetect (rtbUpdate r0 (d :: ds)) test).edge = .upper then x ≤ maxL d ds else minL d ds ≤ x) :
     let r := rtbDetect (rtbUpdate r0 (d :: ds)) test
-    (rtbInv r (rtbFwd r neg x).1).1 = x ∧ (rtbFwd r neg x).2 * (rtbInv r (rtbFwd r neg x).1).2 = 1 :=
-  Reparam.rtb_lawful_after_update r0 d ds hupd hpre hpost hf hmM test neg x hside
+    (rtbInv r (rtbFwd r neg x).1).1 = x ∧ (rtbFwd r neg x).2 * (rtbInv r (rtbFwd r neg x).1).2 = 1 ∧
+    0 < (rtbFwd r neg x).2 ∧ 0 < (rtbInv r (rtbFwd r neg x).1).2 :=
+  let h := Reparam.rtb_lawful_after_update r0 d ds hupd hpre hpost hf hmM test neg x hside
+  ⟨h.1.1, h.1.2, h.2.1, h.2.2⟩
 
-example : minL (1 / 4 : Rat) [3 / 4, 1 / 2] < maxL (1 / 4 : Rat) [3 / 4, 1 / 2] := by decide +kernel
+/-- applied: split inversion, data 1/4, 3/4, 1/2, edge `lower`, the point 7/8 (above the data maximum: not the reflecting side) -/
+example :=
+  rtb_lawful_after_update (K := ℚ) (rtbMk 0 1 none (some .split) true false true none none false false) (1 / 4) [3 / 4, 1 / 2]
+    rfl rfl rfl (fun h => by cases h) (by decide +kernel) .lower true (7 / 8) (fun _ => by decide +kernel)
 
 /-- the side condition of `rtb_lawful_after_update` is needed — and the unchanged code violates the property here: after
 `update` with data in [1/4, 3/4], edge `lower`, the prior-box point 1/8 maps to −1/4 and comes back as 3/8. -/
@@ -112,7 +147,7 @@ theorem rtb_roundtrip_fails_without_reflect_guard :
     let r := rtbDetect (rtbUpdate (rtbMk (0 : Rat) 1 none (some .split) true false true none none false false) [1 / 4, 3 / 4]) .lower
     rtbFwd r false (1 / 8) = (-1 / 4, 2) ∧ rtbInv r (-1 / 4) = (3 / 8, 1 / 2) := by decide +kernel
 
-/-- the guard `b0 ≠ b1` is needed (constant data after `update`): everything collapses -/
+/-- the bounds must be distinct (constant data after `update`): everything collapses -/
 theorem rtb_roundtrip_fails_without_distinct_bounds :
     let r := rtbUpdate (rtbMk (0 : Rat) 1 none none false false true none none false false) [1 / 2, 1 / 2]
     (rtbInv r (rtbFwd r false (1 / 4)).1).1 ≠ 1 / 4 := by decide +kernel
@@ -124,8 +159,10 @@ theorem rtb_jac_is_derivative (r : Rtb K) (neg : Bool) (hb : r.b0 < r.b1) (hpre 
     ∃ J : K, 0 ≤ J ∧ (∀ x, (rtbFwd r neg x).2 = J) ∧ ∀ x y, |(rtbFwd r neg x).1 - (rtbFwd r neg y).1| = J * |x - y| :=
   rtbFwd_affineJ r neg hb hpre hpost
 
-example : AffineJ (Hook.affine (2 : Rat) 1).fwd ∧ AffineJ (fun x : Rat => (x, 1)) :=
-  ⟨Hook.affine_affineJ 2 1, AffineJ.id⟩
+/-- applied: an affine pre-rescaling `2x + 1`, no post-rescaling, reflection about the upper edge -/
+example :=
+  rtb_jac_is_derivative (K := ℚ) ⟨0, 1, 0, 1, some .duplicate, true, some (Hook.affine 2 1), none, false, 0, 1, 3, .upper⟩ true
+    (by norm_num) (Hook.affine_affineJ 2 1) AffineJ.id
 
 end Exact
 
@@ -142,6 +179,9 @@ theorem scalar_object_lawful {ι κ : Type} [DecidableEq ι] [DecidableEq κ] (p
     Lawful (ofScalar p pp f g) (fun i => i = p) (fun k => k = pp) (fun x => D (x p)) :=
   ofScalar_lawful p pp f g D h
 
+example := scalar_object_lawful (K := ℚ) (0 : ℕ) (0 : ℕ) (fun x => (x / 2, 1 / 2)) (fun y => (y * 2, 2)) (fun _ => True)
+  (fun a _ => ⟨by ring, by norm_num⟩)
+
 /-- NullReparameterisation is lawful everywhere with Jacobian factor one -/
 theorem null_lawful {ι : Type} [DecidableEq ι] (p : ι) :
     Lawful (nullReparam p : Reparam (ι → K) (ι → K) K) (fun i => i = p) (fun k => k = p) (fun _ => True) :=
@@ -155,6 +195,9 @@ theorem lawful_compose {ι κ : Type} {r1 r2 : Reparam (ι → K) (κ → K) K} 
     Lawful (compose r1 r2) (fun i => P1 i ∨ P2 i) (fun k => PP1 k ∨ PP2 k) (fun x => D1 x ∧ D2 x) :=
   h1.comp h2 hP hPP
 
+example := lawful_compose (null_lawful (K := ℚ) (0 : ℕ)) (null_lawful (K := ℚ) (1 : ℕ))
+  (fun i h => by omega) (fun k h => by omega)
+
 /-- **CombinedReparameterisation round trip** — any list of lawful objects on pairwise disjoint parameters, either value of
 `reverse_order`: `inverse_reparameterise` applied to a fresh `x` and the forward `x_prime` returns every reparameterised
 parameter, for every starting `x_prime` and every accumulated log-Jacobian. -/
@@ -163,12 +206,22 @@ theorem combined_roundtrip {ι κ : Type} (es : List (Entry ι κ K)) (h : AllLa
     ((combined (es.map (·.rep)) rev).inv (y, ((combined (es.map (·.rep)) rev).fwd (x, xp, j)).2.1, j')).1 i = x i :=
   (combined_lawful es h rev).roundtrip x xp j y j' hD i hi
 
+/-- applied to the two-object list `exampleEntries` (a Rescale on parameter 0, a Null on parameter 1), reversed order -/
+example (x xp y : ℕ → ℚ) :=
+  combined_roundtrip exampleEntries exampleEntries_lawful true x xp 1 y 1
+    (fun e he => by simp only [exampleEntries, List.mem_cons, List.not_mem_nil, or_false] at he; rcases he with rfl | rfl <;> trivial)
+    0 ⟨_, List.mem_cons_self, rfl⟩
+
 /-- **CombinedReparameterisation Jacobians**: the accumulated forward and inverse factors multiply to one -/
 theorem combined_jac {ι κ : Type} (es : List (Entry ι κ K)) (h : AllLawful es) (rev : Bool)
     (x : ι → K) (xp : κ → K) (y : ι → K) (hD : allD es x) :
     ((combined (es.map (·.rep)) rev).fwd (x, xp, 1)).2.2 *
       ((combined (es.map (·.rep)) rev).inv (y, ((combined (es.map (·.rep)) rev).fwd (x, xp, 1)).2.1, 1)).2.2 = 1 :=
   (combined_lawful es h rev).jac x xp y hD
+
+example (x xp y : ℕ → ℚ) :=
+  combined_jac exampleEntries exampleEntries_lawful false x xp y
+    (fun e he => by simp only [exampleEntries, List.mem_cons, List.not_mem_nil, or_false] at he; rcases he with rfl | rfl <;> trivial)
 
 /-- **Non-sampling fields (and every field no object owns) are untouched**: forward never changes `x`, changes `x_prime` only
 at owned prime parameters; inverse never changes `x_prime`, changes `x` only at owned parameters. -/
@@ -181,19 +234,7 @@ theorem nonsampling_untouched {ι κ : Type} (es : List (Entry ι κ K)) (h : Al
   let L := combined_lawful es h rev
   ⟨L.fwd_x s, L.fwd_frame s, L.inv_xp s, L.inv_frame s⟩
 
-/-- a two-object example: RescaleToBounds on parameter 0 and ScaleAndShift on parameter 1 satisfy `AllLawful` -/
-example : AllLawful ([⟨ofScalar (0 : Nat) (0 : Nat) (fun x : Rat => (x / 2, 1 / 2)) (fun y => (y * 2, 2)), (· = 0), (· = 0), fun _ => True⟩,
-    ⟨nullReparam 1, (· = 1), (· = 1), fun _ => True⟩] : List (Entry Nat Nat Rat)) := by
-  refine ⟨?_, ?_⟩
-  · intro e he
-    simp only [List.mem_cons, List.not_mem_nil, or_false] at he
-    rcases he with rfl | rfl
-    · exact ofScalar_lawful (K := Rat) 0 0 (fun x => (x / 2, 1 / 2)) (fun y => (y * 2, 2)) (fun _ => True)
-        (fun a _ => ⟨by ring, by norm_num⟩)
-    · exact null_lawful 1
-  · simp only [List.pairwise_cons, List.mem_cons, List.not_mem_nil, or_false, forall_eq, List.Pairwise.nil, and_true,
-      IsEmpty.forall_iff, implies_true]
-    exact ⟨fun i h => by omega, fun k h => by omega⟩
+example (s : (ℕ → ℚ) × (ℕ → ℚ) × ℚ) := nonsampling_untouched exampleEntries exampleEntries_lawful true s
 
 /-- **FlowProposal.rescale / inverse_rescale**: with any lawful combined reparameterisation and non-sampling names that no
 object owns, the reparameterised parameters come back, the non-sampling fields are copied to `x_prime` and back unchanged,
@@ -206,6 +247,12 @@ theorem proposal_rescale_roundtrip {ι : Type} [DecidableEq ι] (c : Reparam (ι
                (proposalInverseRescale c ns e' (proposalRescale c ns e x).1).1 p = x p) ∧
     (proposalRescale c ns e x).2 * (proposalInverseRescale c ns e' (proposalRescale c ns e x).1).2 = 1 :=
   proposal_roundtrip c P PP D hc ns hnsP hnsPP e e' x hD
+
+/-- applied: a Null object on field 0, non-sampling fields 7, 8, 9 (logP, logL, it) -/
+example (e e' x : ℕ → ℚ) :=
+  proposal_rescale_roundtrip (nullReparam (0 : ℕ)) _ _ _ (null_lawful (K := ℚ) 0) [7, 8, 9]
+    (fun p hp => by simp only [List.mem_cons, List.not_mem_nil, or_false] at hp; omega)
+    (fun p hp => by simp only [List.mem_cons, List.not_mem_nil, or_false] at hp; omega) e e' x trivial
 
 example : (proposalRescale (nullReparam (0 : Nat)) [7] (fun _ => (0 : Rat)) (fun i => if i = 0 then 5 else if i = 7 then 3 else 0)).1 7 = 3 := by
   decide +kernel
@@ -225,11 +272,18 @@ theorem prime_prior_support_plain (r : Rtb K) (hp : r.hasPrimePrior = true) (hin
     ∃ lo hi, rtbPrimeBounds r = some (some (lo, hi)) ∧ IsImage r lo hi :=
   image_plain r hp hinv hb hr
 
+/-- applied: prior [0, 4], bounds updated to the data range [1, 3], target interval [−3, 7] -/
+example := prime_prior_support_plain (K := ℚ) ⟨0, 4, -3, 7, none, true, none, none, true, 0, 1, 3, .unset⟩ rfl rfl
+  (by norm_num) (by norm_num)
+
 /-- the same when inversion is configured but the edge decision is "none" (`False`) or not yet taken -/
 theorem prime_prior_support_inversion_off (r : Rtb K) (hp : r.hasPrimePrior = true) (t : InvType)
     (hinv : r.inversion = some t) (he : r.edge = .unset ∨ r.edge = .off) (hb : r.b0 < r.b1) :
     ∃ lo hi, rtbPrimeBounds r = some (some (lo, hi)) ∧ IsImage r lo hi :=
   image_inversion_off r hp t hinv he hb
+
+example := prime_prior_support_inversion_off (K := ℚ) ⟨0, 4, 0, 1, some .split, true, none, none, true, 0, 1, 3, .off⟩ rfl .split rfl
+  (Or.inr rfl) (by norm_num)
 
 /-- reflection about the lower edge, the lower prior bound on the edge (the state before any update): the stored bounds
 `(−upper, upper)` are the image of the prior interval over both sign choices -/
@@ -238,16 +292,41 @@ theorem prime_prior_support_lower (r : Rtb K) (hp : r.hasPrimePrior = true) (t :
     ∃ lo hi, rtbPrimeBounds r = some (some (lo, hi)) ∧ IsImage r lo hi :=
   image_lower r hp t hinv he hb hedge
 
+example := prime_prior_support_lower (K := ℚ) ⟨0, 4, 0, 1, some .split, true, none, none, true, 2, -2, 2, .lower⟩ rfl .split rfl rfl
+  (by norm_num) (by simp only [Rtb.P0, Rtb.preF]; norm_num)
+
 /-- reflection about the upper edge, the upper prior bound on the edge: stored bounds `(lower − 1, 1 − lower)` -/
 theorem prime_prior_support_upper (r : Rtb K) (hp : r.hasPrimePrior = true) (t : InvType) (hinv : r.inversion = some t)
     (he : r.edge = .upper) (hb : r.b0 < r.b1) (hedge : r.P1 - r.offset = r.b1) :
     ∃ lo hi, rtbPrimeBounds r = some (some (lo, hi)) ∧ IsImage r lo hi :=
   image_upper r hp t hinv he hb hedge
 
+example := prime_prior_support_upper (K := ℚ) ⟨0, 4, 0, 1, some .duplicate, true, none, none, true, 2, -2, 2, .upper⟩ rfl .duplicate
+  rfl rfl (by norm_num) (by simp only [Rtb.P1, Rtb.preF]; norm_num)
+
 example :
     let r := rtbDetect (rtbMk (0 : Rat) 4 none (some .duplicate) true true true none none false true) .upper
     r.hasPrimePrior = true ∧ r.b0 < r.b1 ∧ r.P1 - r.offset = r.b1 ∧ rtbPrimeBounds r = some (some (-1, 1)) := by
   decide +kernel
+
+/-- **Value of the prime prior = prior / J up to a constant** (affine family, uniform original prior of any density `c ≠ 0` on
+the box, no hooks): whenever the stored bounds are the image (the four theorems above), the offered prime prior — the
+indicator of the stored bounds, `exp(log_uniform_prior)` — equals `k · c / J(x)` at the image of every prior point, with one
+constant `k` for all points and both sign bits: `J` is a positive constant, so `prior / J` is constant on the image. -/
+theorem prime_prior_value (r : Rtb K) (lo hi : K) (himg : IsImage r lo hi) (hb : r.b0 < r.b1) (hf : r.FactorOK)
+    (hpre : r.pre = none) (hpost : r.post = none) (c : K) (hc : c ≠ 0) :
+    ∃ k : K, ∀ x neg, r.p0 ≤ x → x ≤ r.p1 →
+      uniformPriorFactor (rtbFwd r neg x).1 lo hi = k * (c / (rtbFwd r neg x).2) :=
+  Reparam.prime_prior_value r lo hi himg hb hf hpre hpost c hc
+
+/-- applied to the image obtained from `prime_prior_support_plain`, prior density 1/4 on [0, 4] -/
+example : ∃ lo hi k : ℚ, ∀ x neg, (0 : ℚ) ≤ x → x ≤ 4 →
+    uniformPriorFactor (rtbFwd ⟨0, 4, -3, 7, none, true, none, none, true, 0, 1, 3, .unset⟩ neg x).1 lo hi
+      = k * ((1 / 4) / (rtbFwd ⟨0, 4, -3, 7, none, true, none, none, true, 0, 1, 3, .unset⟩ neg x).2) := by
+  obtain ⟨lo, hi, _, himg⟩ := prime_prior_support_plain (K := ℚ) ⟨0, 4, -3, 7, none, true, none, none, true, 0, 1, 3, .unset⟩
+    rfl rfl (by norm_num) (by norm_num)
+  obtain ⟨k, hk⟩ := prime_prior_value _ lo hi himg (by norm_num) (fun _ => by norm_num) rfl rfl (1 / 4) (by norm_num)
+  exact ⟨lo, hi, k, hk⟩
 
 omit [Field K] [IsStrictOrderedRing K] in
 /-- `log_uniform_prior` is finite exactly on the closed interval of the stored bounds -/
@@ -267,8 +346,8 @@ theorem prime_prior_support_fails_without_ordered_rescale_bounds :
     let r := rtbMk (0 : Rat) 1 (some (1, -1)) none false false true none none false true
     rtbPrimeBounds r = some (some (1, -1)) ∧ (rtbFwd r false 1).1 = 3 := by decide +kernel
 
-/-- the hypothesis "prior bound on the edge" of `prime_prior_support_lower` is needed: after `update` the stored bounds
-(−3/2, 3/2) no longer contain the image 2·… of every prior point — and the map is no longer injective there -/
+/-- the hypothesis "prior bound on the edge" of `prime_prior_support_lower` is needed: after `update` to [1/2, 3/4] the stored
+bounds are (−2, 2) but the map is no longer injective on the box (3/4 and 1/4 share the image 1) -/
 theorem prime_prior_support_lower_fails_after_update :
     let r := rtbDetect (rtbUpdate (rtbMk (0 : Rat) 1 none (some .split) true false true none none false true) [1 / 2, 3 / 4]) .lower
     rtbPrimeBounds r = some (some (-2, 2)) ∧ (rtbFwd r false 0).1 = -2 ∧ (rtbFwd r false (3 / 4)).1 = 1 ∧
@@ -288,14 +367,14 @@ theorem logit_roundtrip_jac (x : ℝ) (h0 : 0 < x) (h1 : x < 1) :
     HasDerivAt (fun t => (logitLJ 0 t).1) (exp (logitLJ 0 x).2) x :=
   ⟨sigmoid_logit x h0 h1, logit_sigmoid_logJ x h0 h1, logit_hasDerivAt x h0 h1⟩
 
-example : (0 : ℝ) < 1 / 2 ∧ (1 / 2 : ℝ) < 1 := by norm_num
+example := logit_roundtrip_jac (1 / 3) (by norm_num) (by norm_num)
 
 /-- with a clamp `eps` the function coincides with the unclamped logit exactly on `[eps, 1 − eps]` (outside it is constant,
 hence not injective — RescaleToBounds never passes `eps`) -/
 theorem logit_eps_partial (eps x : ℝ) (h0 : eps ≤ x) (h1 : x ≤ 1 - eps) : logitLJ eps x = logitLJ 0 x :=
   logit_eps_eq eps x h0 h1
 
-example : (1 / 4 : ℝ) ≤ 1 / 2 ∧ (1 / 2 : ℝ) ≤ 1 - 1 / 4 := by norm_num
+example := logit_eps_partial (1 / 4) (1 / 2) (by norm_num) (by norm_num)
 
 /-- log / exp pre- and post-rescalings: mutually inverse (log needs `x > 0`), log-Jacobians negatives, derivatives
 `exp(log_j)` -/
@@ -305,15 +384,41 @@ theorem log_exp_roundtrip_jac (x y : ℝ) (h0 : 0 < x) :
     HasDerivAt (fun t => (logLJ t).1) (exp (logLJ x).2) x ∧ HasDerivAt (fun t => (expLJ t).1) (exp (expLJ y).2) y :=
   ⟨exp_log_roundtrip x h0, log_exp_roundtrip y, log_hasDerivAt x h0, exp_hasDerivAt y⟩
 
-example : (0 : ℝ) < 2 := by norm_num
+example := log_exp_roundtrip_jac 2 (-3) (by norm_num)
 
-/-- RescaleToBounds with the named hooks: `logit` / `log` / `exp` satisfy the hook hypothesis of `rtb_roundtrip_jac_inv` on their
-domains, so e.g. the registered `logit` reparameterisation round-trips on the open prior interval. -/
+/-- the named hooks `log` / `exp` / `logit` (factor = exp of the log-Jacobian) satisfy the hook hypotheses of
+`rtb_roundtrip_jac_inv` on their domains -/
 theorem named_hooks_lawful (x : ℝ) :
     (0 < x → logHook.LawfulAt x) ∧ expHook.LawfulAt x ∧ (0 < x → x < 1 → logitHook.LawfulAt x) :=
   ⟨logHook_lawful x, expHook_lawful x, logitHook_lawful x⟩
 
-example : logitHook.LawfulAt (1 / 2) := logitHook_lawful _ (by norm_num) (by norm_num)
+example : logitHook.LawfulAt (1 / 2) := (named_hooks_lawful (1 / 2)).2.2 (by norm_num) (by norm_num)
+
+/-- **The registered `logit` object end to end** (`get_reparameterisation("logit")`: rescale bounds [0, 1], `update_bounds=False`,
+post-rescaling logit; `offset` either way): at every point of the *open* prior interval the round trip holds, the two Jacobian
+factors are positive and reciprocal (log-Jacobians finite and negatives of each other), the forward map is differentiable
+and the reported factor is the absolute value of its derivative. -/
+theorem logit_object_lawful (p0 p1 x : ℝ) (off neg : Bool) (hp : p0 < p1) (h0 : p0 < x) (h1 : x < p1) :
+    let r := namedPostObject logitHook p0 p1 off
+    ((rtbInv r (rtbFwd r neg x).1).1 = x ∧ (rtbFwd r neg x).2 * (rtbInv r (rtbFwd r neg x).1).2 = 1 ∧
+      0 < (rtbFwd r neg x).2 ∧ 0 < (rtbInv r (rtbFwd r neg x).1).2) ∧
+    ∃ d, HasDerivAt (fun t => (rtbFwd r neg t).1) d x ∧ |d| = (rtbFwd r neg x).2 :=
+  let h := logitObject_lawful p0 p1 x off neg hp h0 h1
+  ⟨⟨h.1.1.1, h.1.1.2, h.1.2.1, h.1.2.2⟩, h.2⟩
+
+example := logit_object_lawful (-2) 6 5 true false (by norm_num) (by norm_num) (by norm_num)
+
+/-- **The registered `log-rescale` object end to end**: the same on `(p0, p1]` — the upper bound, where the map is finite,
+included; only the lower bound is singular. -/
+theorem log_rescale_object_lawful (p0 p1 x : ℝ) (off neg : Bool) (hp : p0 < p1) (h0 : p0 < x) :
+    let r := namedPostObject logHook p0 p1 off
+    ((rtbInv r (rtbFwd r neg x).1).1 = x ∧ (rtbFwd r neg x).2 * (rtbInv r (rtbFwd r neg x).1).2 = 1 ∧
+      0 < (rtbFwd r neg x).2 ∧ 0 < (rtbInv r (rtbFwd r neg x).1).2) ∧
+    ∃ d, HasDerivAt (fun t => (rtbFwd r neg t).1) d x ∧ |d| = (rtbFwd r neg x).2 :=
+  let h := logRescaleObject_lawful p0 p1 x off neg hp h0
+  ⟨⟨h.1.1.1, h.1.1.2, h.1.2.1, h.1.2.2⟩, h.2⟩
+
+example := log_rescale_object_lawful 1 3 3 false false (by norm_num) (by norm_num)
 
 /-- **chain rule**: for RescaleToBounds over ℝ with hooks differentiable where they are applied (derivative = their reported
 factor), the forward map is differentiable and the reported factor is the absolute value of its derivative. -/
@@ -324,8 +429,10 @@ theorem rtb_jac_is_derivative_real (r : Rtb ℝ) (neg : Bool) (x : ℝ) (hb : r.
     ∃ d, HasDerivAt (fun t => (rtbFwd r neg t).1) d x ∧ |d| = |(rtbFwd r neg x).2| :=
   rtbFwd_hasDerivAt r neg x hb hpre hpost
 
-example : HasDerivAt (fun t => (logitHook.fwd t).1) (logitHook.fwd (1 / 2)).2 (1 / 2) :=
-  logit_hasDerivAt _ (by norm_num) (by norm_num)
+/-- applied: pre-rescaling `log` (a distance-like parameter on [1, 4] in log space), no post-rescaling, at x = 2 -/
+example :=
+  rtb_jac_is_derivative_real ⟨1, 4, -1, 1, none, false, some logHook, none, false, 0, 0, 2, .unset⟩ false 2 (by norm_num)
+    (log_hasDerivAt 2 (by norm_num)) (hasDerivAt_id _)
 
 /-- **Angle** (with or without a radial parameter, any non-zero `scale`): for `r > 0` and the scaled angle inside the branch
 the inverse uses — `(−π, π]` without, `[0, 2π)` with the `% 2π` of a zero lower bound — the inverse returns angle and radius
@@ -335,8 +442,9 @@ theorem angle_roundtrip (s θ r : ℝ) (zb : Bool) (hs : s ≠ 0) (hr : 0 < r)
     angleInv s zb (angleFwd s θ r).1 (angleFwd s θ r).2.1 = (θ, r, -(angleFwd s θ r).2.2) :=
   angle_roundtrip_aux s θ r zb hs hr h1 h2
 
-example : (0 : ℝ) ≤ 1 * 2 ∧ (1 : ℝ) * 2 < 2 * π := by
-  have := two_le_pi; constructor <;> nlinarith
+/-- applied: scale 2 (`angle-pi`), zero lower bound, θ = 1, r = 3 -/
+example := angle_roundtrip 2 1 3 true (by norm_num) (by norm_num) (fun h => by cases h)
+  (fun _ => by have := two_le_pi; constructor <;> nlinarith)
 
 /-- the branch guard is needed: without the modulo, an angle beyond π comes back shifted by a full turn (this is the
 configuration `FlowProposal.verify_rescaling` refuses at initialisation) -/
@@ -349,15 +457,16 @@ theorem angle_roundtrip_fails_without_branch :
     rwa [sin_sub_two_pi, cos_sub_two_pi, one_mul, one_mul] at this
   rw [h]; intro e; linarith
 
-/-- Angle: the four partial derivatives of `(θ, r) ↦ (r cos sθ, r sin sθ)` and the determinant `−s·r` of the Jacobian:
-`log|det J| = log r + log|s|`, the reported `log r` is off by the constant `log|s|` only. -/
-theorem angle_jacobian (s θ r : ℝ) :
-    (HasDerivAt (fun t => r * cos (s * t)) (r * (-sin (s * θ) * s)) θ ∧
-     HasDerivAt (fun t => r * sin (s * t)) (r * (cos (s * θ) * s)) θ ∧
-     HasDerivAt (fun ρ => ρ * cos (s * θ)) (cos (s * θ)) r ∧
-     HasDerivAt (fun ρ => ρ * sin (s * θ)) (sin (s * θ)) r) ∧
-    (r * (-sin (s * θ) * s)) * sin (s * θ) - cos (s * θ) * (r * (cos (s * θ) * s)) = -(s * r) :=
-  ⟨angle_partials s θ r, angle_det s θ r⟩
+/-- **Angle: the reported log-Jacobian vs the true one.**  The model function `angleFwd` has the four partial derivatives
+`a b c d` in (θ, r), and `log|det| = log_j + log|s|`: the reported `log r` differs from `log|det J|` by the constant `log|scale|`. -/
+theorem angle_jacobian (s θ r : ℝ) (hs : s ≠ 0) (hr : 0 < r) :
+    ∃ a b c d : ℝ,
+      HasDerivAt (fun t => (angleFwd s t r).1) a θ ∧ HasDerivAt (fun ρ => (angleFwd s θ ρ).1) b r ∧
+      HasDerivAt (fun t => (angleFwd s t r).2.1) c θ ∧ HasDerivAt (fun ρ => (angleFwd s θ ρ).2.1) d r ∧
+      log |a * d - b * c| = (angleFwd s θ r).2.2 + log |s| :=
+  angleFwd_jacobian s θ r hs hr
+
+example := angle_jacobian 2 1 3 (by norm_num) (by norm_num)
 
 /-- **ToCartesian** (modes split / duplicate / half = both sign bits): for `r > 0` every point of the closed prior interval —
 both bounds included — comes back, with opposite log-Jacobians. -/
@@ -365,7 +474,19 @@ theorem toCartesian_roundtrip (p0 p1 x r : ℝ) (neg : Bool) (hp : p0 < p1) (hr 
     toCartInv p0 p1 (toCartFwd p0 p1 neg x r).1 (toCartFwd p0 p1 neg x r).2.1 = (x, r, -(toCartFwd p0 p1 neg x r).2.2) :=
   toCart_roundtrip_aux p0 p1 x r neg hp hr h0 h1
 
-example : (2 : ℝ) < 5 ∧ (2 : ℝ) ≤ 5 ∧ (5 : ℝ) ≤ 5 := by norm_num
+/-- applied at the upper bound with the sign bit set (the angle −π comes back as +π, the absolute value absorbs it) -/
+example := toCartesian_roundtrip 2 5 5 1 true (by norm_num) (by norm_num) (by norm_num) (by norm_num)
+
+/-- **ToCartesian: Jacobian.**  Partial derivatives of the model function `toCartFwd` in (x, r) and
+`log|det| = log_j + log π`: the constant is the omitted `log scale` (`scale = π`). -/
+theorem toCartesian_jacobian (p0 p1 x r : ℝ) (neg : Bool) (hp : p0 < p1) (hr : 0 < r) :
+    ∃ a b c d : ℝ,
+      HasDerivAt (fun t => (toCartFwd p0 p1 neg t r).1) a x ∧ HasDerivAt (fun ρ => (toCartFwd p0 p1 neg x ρ).1) b r ∧
+      HasDerivAt (fun t => (toCartFwd p0 p1 neg t r).2.1) c x ∧ HasDerivAt (fun ρ => (toCartFwd p0 p1 neg x ρ).2.1) d r ∧
+      log |a * d - b * c| = (toCartFwd p0 p1 neg x r).2.2 + log π :=
+  toCartFwd_jacobian p0 p1 x r neg hp hr
+
+example := toCartesian_jacobian 2 5 3 1 true (by norm_num) (by norm_num)
 
 /-- **AnglePair**, both conventions, with or without the `% 2π`: off the poles and off the identified end point of the
 horizontal angle, for `r > 0`, both angles and the radius come back and the log-Jacobians are negatives of each other. -/
@@ -377,27 +498,45 @@ theorem anglePair_roundtrip (α β r : ℝ) (m : Bool) (hr : 0 < r)
       azzenInv m (azzenFwd α β r).1 (azzenFwd α β r).2.1 (azzenFwd α β r).2.2.1 = (α, β, r, -(azzenFwd α β r).2.2.2)) :=
   ⟨fun a b => radec_roundtrip_aux α β r m hr a b h1 h2, fun a b => azzen_roundtrip_aux α β r m hr a b h1 h2⟩
 
-example : -(π / 2) < (0 : ℝ) ∧ (0 : ℝ) < π / 2 := by
-  have := pi_pos; constructor <;> linarith
+/-- applied: α = 0, β = 1/2 (inside both (−π/2, π/2) and (0, π)), r = 2, no modulo; both conventions -/
+example :=
+  let h := anglePair_roundtrip 0 (1 / 2) 2 false (by norm_num) (fun _ => ⟨by linarith [pi_pos], pi_pos.le⟩) (fun h => by cases h)
+  (⟨h.1 (by linarith [pi_pos]) (by linarith [two_le_pi]), h.2 (by norm_num) (by linarith [two_le_pi])⟩ : _ ∧ _)
 
-/-- AnglePair: the nine partial derivatives and the 3×3 determinants `r² cos δ` (ra-dec) and `−r² sin ζ` (az-zen): the
-reported `2 log r + log cos δ` / `2 log r + log sin ζ` is `log|det J|` exactly. -/
-theorem anglePair_jacobian (r α β : ℝ) :
-    det3 (r * cos β * -sin α) (r * -sin β * cos α) (1 * cos β * cos α)
-         (r * cos β * cos α) (r * -sin β * sin α) (1 * cos β * sin α)
-         0 (r * cos β) (1 * sin β) = r ^ 2 * cos β ∧
-    det3 (r * sin β * -sin α) (r * cos β * cos α) (1 * sin β * cos α)
-         (r * sin β * cos α) (r * cos β * sin α) (1 * sin β * sin α)
-         0 (r * -sin β) (1 * cos β) = -(r ^ 2 * sin β) ∧
-    HasDerivAt (fun t => r * cos β * cos t) (r * cos β * -sin α) α ∧
-    HasDerivAt (fun t => r * sin t) (r * cos β) β :=
-  ⟨anglePair_radec_det r α β, anglePair_azzen_det r α β, (anglePair_radec_partials r α β).1,
-   (anglePair_radec_partials r α β).2.2.2.2.2.2.2.1⟩
+/-- **AnglePair: Jacobians.**  The model functions `radecFwd` / `azzenFwd` have the nine partial derivatives `a … i` in
+(α, β, r), and `log|det|` of that 3×3 matrix *equals* the reported log-Jacobian (`2 log r + log cos β`, resp.
+`2 log r + log sin β`) wherever it is defined: the allowed constant is zero. -/
+theorem anglePair_jacobian (α β r : ℝ) (hr : 0 < r) :
+    (0 < cos β → ∃ a b c d e f g h i : ℝ,
+      HasDerivAt (fun t => (radecFwd t β r).1) a α ∧ HasDerivAt (fun t => (radecFwd α t r).1) b β ∧
+      HasDerivAt (fun ρ => (radecFwd α β ρ).1) c r ∧
+      HasDerivAt (fun t => (radecFwd t β r).2.1) d α ∧ HasDerivAt (fun t => (radecFwd α t r).2.1) e β ∧
+      HasDerivAt (fun ρ => (radecFwd α β ρ).2.1) f r ∧
+      HasDerivAt (fun t => (radecFwd t β r).2.2.1) g α ∧ HasDerivAt (fun t => (radecFwd α t r).2.2.1) h β ∧
+      HasDerivAt (fun ρ => (radecFwd α β ρ).2.2.1) i r ∧
+      log |det3 a b c d e f g h i| = (radecFwd α β r).2.2.2) ∧
+    (0 < sin β → ∃ a b c d e f g h i : ℝ,
+      HasDerivAt (fun t => (azzenFwd t β r).1) a α ∧ HasDerivAt (fun t => (azzenFwd α t r).1) b β ∧
+      HasDerivAt (fun ρ => (azzenFwd α β ρ).1) c r ∧
+      HasDerivAt (fun t => (azzenFwd t β r).2.1) d α ∧ HasDerivAt (fun t => (azzenFwd α t r).2.1) e β ∧
+      HasDerivAt (fun ρ => (azzenFwd α β ρ).2.1) f r ∧
+      HasDerivAt (fun t => (azzenFwd t β r).2.2.1) g α ∧ HasDerivAt (fun t => (azzenFwd α t r).2.2.1) h β ∧
+      HasDerivAt (fun ρ => (azzenFwd α β ρ).2.2.1) i r ∧
+      log |det3 a b c d e f g h i| = (azzenFwd α β r).2.2.2) :=
+  ⟨fun hc => radecFwd_jacobian α β r hr hc, fun hs => azzenFwd_jacobian α β r hr hs⟩
 
-/-- what stage 2 does **not** show: the prime priors of the polar classes (chi-distributed auxiliary radius), the GW distance
-converters (power law: oracle only; co-moving volume: lookup table), `DeltaPhaseReparameterisation`, and every effect of
-float rounding.  Stated as the trivially true residue so that the gap is recorded next to the theorems. -/
-theorem polar_priors_and_gw_partial : True := trivial
+/-- applied on the equator / at zenith angle π/2 … here β = 0 for ra-dec (cos 0 = 1 > 0) -/
+example := (anglePair_jacobian 1 0 2 (by norm_num)).1 (by simp)
+
+/-
+NOT SHOWN (the property is therefore PARTIAL in Lean; these clauses are checked by the numeric oracle only):
+* "prime prior = prior / J up to a constant" for the polar classes (chi-distributed auxiliary radius; uniform / sine /
+  isotropic angles) and for the GW distance converters — `prime_prior_value` covers the affine family only;
+* the GW distance converters (power law: oracle only; co-moving volume: lookup table, not covered at all),
+  `DeltaPhaseReparameterisation` (oracle only);
+* `detect_edge`'s histogram decision (the edge is an input of the model);
+* every effect of float rounding (the theorems are about exact arithmetic; the tie allows 16 ulp).
+-/
 
 end Real
 
